@@ -11,7 +11,10 @@ PROPS = {
         family="pool",
         theorems=T("C19", "fault_safe", "fault_safe_destructible", "fault_safe_usable", "fault_only_when_scheduled", "throw_only_bad_alloc",
                    "fault_safe_reachable", "asFound_allocate_badFree", "asFound_allocate_doubleFree", "asFound_assignCopy_useAfterFree",
-                   "stream_step_fault_safe", "stream_append_fault_safe", "stream_append_char_fault_safe", "stream_fault_then_destructible"),
+                   "stream_step_fault_safe", "stream_append_fault_safe", "stream_append_char_fault_safe", "stream_fault_then_destructible",
+                   "string_fault_safe", "string_fault_never_faults", "string_fault_target_previous_or_empty",
+                   "string_fault_other_exception_unchanged", "string_fault_destructible", "string_fault_readable",
+                   "string_reachable_finite", "string_histories_included"),
         slices_by_family={"pool": {"quick": 32, "thorough": 64}, "strpool": {"quick": 16, "thorough": 32}, "stream": {"quick": 8, "thorough": 16}},
         rule="buffer level (family pool): for two (quick) / four (thorough) element types, every target size class x every source size class (6x6), after 2 / 5 kinds "
              "of prefix, every operation of a 37-entry menu with its allocation failing (a buffer member allocates at most once) and with the next one failing (control), "
@@ -25,10 +28,15 @@ PROPS = {
              "modes and at every doubling boundary; the stream must hold its previous bytes, every other stream is untouched, destroying everything is clean. "
              "non-trivial = at least one fault fired",
         exhaustive={"quick": False, "thorough": False},
-        partial="the theorems cover every ST::buffer<T> member and every fault position (the storage layer every string operation goes through); for ST::string "
-                "operations the statement is decided on the code by the fault-injection correspondence (exact model comparison for the buffer-only operations, the "
-                "property's predicate for all), not by a theorem; allocations inside libstdc++ containers are opaque allocation points; std::ostream swallowing an "
-                "exception raised inside its own buffer growth is outside the library and not generated",
+        partial="the theorems cover every ST::buffer<T> member and every fault position, and (string_fault_safe and its corollaries) every modelled ST::string "
+                "operation under every fault schedule in every history: the ownership behaviour — which buffers, temporaries and result objects an operation creates, "
+                "moves, assigns and destroys, in which order, and what unwinding destroys — is proved safe (invariant kept, targets hold their previous value or are "
+                "empty or were never constructed, everything else untouched, no temporary survives, everything destructible). What a value computation (substr, replace, "
+                "split, format, conversions ...) computes is a parameter of that model, and what it allocates inside libstdc++ containers (std::vector in split/tokenize, "
+                "format's output sink, std::string results) is opaque to it: for those operations the statement is decided on the code by the fault-injection "
+                "correspondence against the property's predicate (exact model comparison for the buffer-only operations, now including += of a C string and "
+                "set/assignment from UTF-16/32 text). string_stream growth is covered by the stream family, not by a theorem here; std::ostream swallowing an exception "
+                "raised inside its own buffer growth is outside the library and not generated",
     ),
 }
 
@@ -37,8 +45,11 @@ MANIFEST_TEXT = {
                      "throwing, the operation ends in bad_alloc only when that allocation was reached, the invariant of C05 holds afterwards (no pointer to released "
                      "storage, exclusive ownership), the target holds its previous value or is empty or was never constructed, every other object is untouched, and "
                      "destroying every object afterwards releases every block exactly once. One genuine defect (allocate / copy assignment stored size or kept the old "
-                     "pointer across the throwing new) was found by this check and repaired. ST::string-level operations are decided by fault injection at every "
-                     "allocation of every operation (k = 1..n) against the property's predicate and, for buffer-only operations, the exact model.",
+                     "pointer across the throwing new) was found by this check and repaired. The same is proved one level up (string_fault_safe): every modelled "
+                     "ST::string operation — with its temporaries and their unwinding — under an arbitrary fault schedule installed anywhere in an arbitrary history "
+                     "completes, or throws a non-bad_alloc exception with nothing changed, or throws bad_alloc with only its targets changed (previous value, empty, or "
+                     "never constructed), the invariant holding and no temporary surviving; never a memory fault. In addition ST::string-level operations are decided by "
+                     "fault injection at every allocation of every operation (k = 1..n) against the property's predicate and, for buffer-only operations, the exact model.",
                 design_ref="DESIGN.md section 3, C19",
                 note="Trusted: Lean kernel + 3 standard axioms, the operator-new interposer (forwards to malloc; counts and fails allocations made inside library calls), ASan/LSan.",
                 technique="Lean 4 proof over fault schedules on the buffer machine + fault-injection correspondence (every allocation of every operation) under ASan/LSan"),
